@@ -418,6 +418,43 @@ def rule_p7(repo, col):
                function="problog_export.__call__")
 
 
+def rule_p8(repo, col):
+    """problog_export_nondet wrapper: every solution the Python function returns becomes an answer - converted results are appended on every path of the per-solution loop that
+    does not end in a UnifyError (duplicates are answers too: [1,2,1] has three solutions)"""
+    from .. import dtable
+
+    c = repo.cls("problog.extern", "problog_export_nondet")
+    call = c.methods.get("__call__")
+    if call is None:
+        raise AnalysisError("problog_export_nondet.__call__ missing")
+    m = call.module
+    inner = [n for n in ast.walk(call.node) if isinstance(n, ast.FunctionDef) and n is not call.node]
+    if len(inner) != 1:
+        raise AnalysisError("problog_export_nondet.__call__: wrapper function not found")
+    w = inner[0]
+    rets = [norm(r.value) for r in walk_no_nested(w) if isinstance(r, ast.Return) and r.value is not None]
+    if len(set(rets)) != 1:
+        raise AnalysisError("nondet wrapper: single result list expected")
+    res = rets[0]
+    loops = [lp for lp in walk_no_nested(w) if isinstance(lp, ast.For) and any(isinstance(x, ast.Call) and norm(x.func) == "%s.append" % res for x in ast.walk(lp))]
+    if len(loops) != 1:
+        raise AnalysisError("nondet wrapper: loop over the solutions not found")
+    n = 0
+    bad = []
+    for p_ in dtable.extract_block(loops[0].body, opaque_loops=True):
+        if any(s_.startswith("<except") for s_, _, _ in p_.conds):
+            continue
+        n += 1
+        apps = [a for fn, a, _ in p_.calls if fn == "%s.append" % res]
+        if len(apps) != 1:
+            bad.append([s_ for s_, t_, _ in p_.conds][-1:] or ["unconditionally"])
+    if n == 0:
+        raise AnalysisError("nondet wrapper: no successful path in the solution loop")
+    col.decide("P8", m, loops[0], not bad, "every converted solution is appended exactly once",
+               "the problog_export_nondet wrapper does not append a successfully converted solution on every path (%s): a solution the Python function returns twice is reported once, so "
+               "findall over the exported predicate no longer sees the function's results" % (bad[0] if bad else ""), construct="nondet wrapper: solution filtered", function="problog_export_nondet.__call__")
+
+
 def run(repo, col):
     col.rule("P1", "constructor coverage py2pl <-> pl2py")
     col.rule("P2", "string codec removes exactly the delimiter pair that was added")
@@ -433,3 +470,5 @@ def run(repo, col):
     rule_p6(repo, col)
     col.rule("P7", "exported functions: falsy return values are values")
     rule_p7(repo, col)
+    col.rule("P8", "non-deterministic exports: every returned solution is an answer")
+    rule_p8(repo, col)
